@@ -65,13 +65,14 @@ def role_step(rng, role, rep, fb="mixed"):
     raise ValueError(role)
 
 
-def script(rng, kinds, roles, rep):
+def script(rng, kinds, roles, rep, bw2=False):
     members = [{"k": k, "o": {"ivl": 1, "size": 64, "k": 2, "n": 1, "rate": 50_000_000}} for k in kinds]
     twcc = 7 if ("twcchdr" in kinds or not ({"cc", "ccleaky", "ccslow"} & set(kinds))) else 0
     fb = rng.choice(["ccfb", "twccfb", "ccfb", "twccfb", "mixed"])     # both RTCP read loops deliver the same kind of feedback in 2 of 3 scripts
     if "nackresp" in kinds and len(kinds) == 3:
         fb = "nack"
-    steps = [{"a": "bindw"}, {"a": "bindr"},
+    # bw2: the RTCP writer is bound a second time - interceptors start a loop per BindRTCPWriter, and the loops share state
+    steps = [{"a": "bindw"}] + ([{"a": "bindw"}] if bw2 else []) + [{"a": "bindr"},
              {"a": "bindl", "s": 1, "nack": True, "twcc": twcc, "rtx": rng.random() < 0.5, "fec": True},
              {"a": "bindl", "s": 3, "nack": True, "twcc": twcc, "rtx": False, "fec": False},
              {"a": "bindm", "s": 2, "nack": True, "twcc": 7, "pli": False},
@@ -141,8 +142,8 @@ def run(ctx):
         chosen = rng.sample(progs, min(per_kind, len(progs)))
         if ctx.quick:      # always include programs with two goroutines in the same role class
             chosen = rng.sample(key, min(8, len(key))) + chosen[:per_kind - 4]
-        for roles in chosen:
-            scripts.append(script(rng, kinds, roles, rep))
+        for j, roles in enumerate(chosen):
+            scripts.append(script(rng, kinds, roles, rep, bw2=(j % 4 == 1)))
     for kinds in [[k] for k in KINDS] + CHAINS:
         scripts.append(park_script(rng, kinds))
     rng.shuffle(scripts)
